@@ -493,4 +493,153 @@ theorem roundMag_normalized {F : Fmt} (hmb : F.mbits ≤ 62) (M : Nat) (E : Int)
       simp only [h0, hm]
       rw [if_pos (by omega)]
 
+/-! ## `into_float` on an arbitrary non-zero extended float -/
+
+theorem normalize_spec (fp : ExtFloat) (h0 : 0 < fp.mant) (h64 : fp.mant < 2 ^ 64) :
+    ∃ s : Nat, s ≤ 63 ∧ normalize fp = ({ mant := fp.mant * 2 ^ s, exp := fp.exp - s }, s) ∧
+      2 ^ 63 ≤ fp.mant * 2 ^ s ∧ fp.mant * 2 ^ s < 2 ^ 64 := by
+  have hne : fp.mant ≠ 0 := by omega
+  have hl1 := Nat.log2_self_le hne
+  have hl2 := @Nat.lt_log2_self fp.mant
+  have hl63 : fp.mant.log2 ≤ 63 := by
+    by_contra hc
+    have : 2 ^ 64 ≤ 2 ^ fp.mant.log2 := Nat.pow_le_pow_right (by decide) (by omega)
+    omega
+  refine ⟨63 - fp.mant.log2, by omega, ?_, ?_, ?_⟩
+  · unfold normalize leadingZeros shl
+    have : (fp.mant == 0) = false := by simpa using hne
+    simp only [this, Bool.false_eq_true, if_false, Nat.shiftLeft_eq]
+    congr 2
+    apply u64_of_lt
+    calc fp.mant * 2 ^ (63 - fp.mant.log2) < 2 ^ (fp.mant.log2 + 1) * 2 ^ (63 - fp.mant.log2) :=
+          Nat.mul_lt_mul_of_pos_right hl2 (pow_pos' _)
+      _ = 2 ^ 64 := by rw [← Nat.pow_add]; congr 1; omega
+  · calc 2 ^ 63 = 2 ^ fp.mant.log2 * 2 ^ (63 - fp.mant.log2) := by rw [← Nat.pow_add]; congr 1; omega
+      _ ≤ fp.mant * 2 ^ (63 - fp.mant.log2) := Nat.mul_le_mul_right _ hl1
+  · calc fp.mant * 2 ^ (63 - fp.mant.log2) < 2 ^ (fp.mant.log2 + 1) * 2 ^ (63 - fp.mant.log2) :=
+          Nat.mul_lt_mul_of_pos_right hl2 (pow_pos' _)
+      _ = 2 ^ 64 := by rw [← Nat.pow_add]; congr 1; omega
+
+/-- **`into_float` is IEEE round-to-nearest-even of the extended value** (infinity on overflow) -/
+theorem intoFloat_eq_roundMag {c : FC} {F : Fmt} (h : FCok c F) (fp : ExtFloat) (h0 : 0 < fp.mant)
+    (h64 : fp.mant < 2 ^ 64) :
+    intoFloat c fp = clampInf F (roundMag F (sNum F fp.mant fp.exp) (sDen F fp.exp)) := by
+  obtain ⟨s, _, hn, hM1, hM2⟩ := normalize_spec fp h0 h64
+  unfold intoFloat roundToNative
+  rw [hn]
+  simp only []
+  rw [pack h roundNearestTieEven_algOk _ _ hM1 hM2,
+    ← roundMag_normalized (by have := h.mb62; have := h.eb; omega) _ _ hM1 hM2]
+  congr 1
+  exact roundMag_congr F _ _ _ _ (sDen_pos F _) (sDen_pos F _) (scaled_shift F fp.mant fp.exp s).symm
+
+/-! ## rounding toward zero (`into_downward_float`) -/
+
+def gDown (M s : Nat) : Nat := M / 2 ^ s
+
+theorem roundDownward_algOk : AlgOk roundDownward gDown where
+  eq := fun fp s _ hs hm => by unfold roundDownward gDown; exact overflowingShr_eq fp s hs hm
+  lo := fun _ _ => Nat.le_refl _
+  hi := fun _ _ => Nat.le_succ _
+
+/-- round toward zero to a bit pattern: the largest finite pattern whose magnitude is `≤ a/b` -/
+def floorMag (F : Fmt) (a b : Nat) : Nat := kOf F a b * 2 ^ F.mbits + a / (b * 2 ^ kOf F a b)
+
+theorem floorMag_congr (F : Fmt) (a b a' b' : Nat) (hb : 0 < b) (hb' : 0 < b') (h : a * b' = a' * b) :
+    floorMag F a b = floorMag F a' b' := by
+  have hq : a / b = a' / b' := div_congr a b a' b' hb hb' h
+  have hk : kOf F a b = kOf F a' b' := by unfold kOf; rw [hq]
+  unfold floorMag
+  rw [hk]
+  congr 1
+  apply div_congr _ _ _ _ (Nat.mul_pos hb (pow_pos' _)) (Nat.mul_pos hb' (pow_pos' _))
+  calc a * (b' * 2 ^ kOf F a' b') = a * b' * 2 ^ kOf F a' b' := by ring
+    _ = a' * b * 2 ^ kOf F a' b' := by rw [h]
+    _ = a' * (b * 2 ^ kOf F a' b') := by ring
+
+theorem floorMag_normalized {F : Fmt} (hmb : F.mbits ≤ 62) (M : Nat) (E : Int) (hM1 : 2 ^ 63 ≤ M) (hM2 : M < 2 ^ 64) :
+    floorMag F (sNum F M E) (sDen F E) = packSpec F gDown M E := by
+  have hP := pow_pos' F.mbits
+  obtain ⟨d, hd⟩ : ∃ d : Nat, d = 63 - F.mbits := ⟨_, rfl⟩
+  have h63 : (2 : Nat) ^ 63 = 2 ^ F.mbits * 2 ^ d := by rw [← Nat.pow_add]; congr 1; omega
+  have h64 : (2 : Nat) ^ 64 = 2 ^ (F.mbits + 1) * 2 ^ d := by rw [← Nat.pow_add]; congr 1; omega
+  unfold packSpec
+  rw [← hd]
+  by_cases hN : -(F.qexp : Int) ≤ E + (d : Int)
+  · rw [if_pos hN]
+    obtain ⟨K, hK⟩ : ∃ K : Nat, E + (d : Int) + F.qexp = K := ⟨(E + (d : Int) + F.qexp).toNat, by omega⟩
+    have hKt : (E + (d : Int) + (F.qexp : Int)).toNat = K := by omega
+    rw [hKt]
+    have hcong : floorMag F (sNum F M E) (sDen F E) = floorMag F (M * 2 ^ K) (2 ^ d) := by
+      apply floorMag_congr F _ _ _ _ (sDen_pos F E) (pow_pos' d)
+      unfold sNum sDen
+      have : (E + (F.qexp : Int)).toNat + d = K + (-(E + (F.qexp : Int))).toNat := by omega
+      calc M * 2 ^ (E + (F.qexp : Int)).toNat * 2 ^ d = M * 2 ^ ((E + (F.qexp : Int)).toNat + d) := by rw [Nat.pow_add]; ring
+        _ = M * 2 ^ (K + (-(E + (F.qexp : Int))).toNat) := by rw [this]
+        _ = M * 2 ^ K * 2 ^ (-(E + (F.qexp : Int))).toNat := by rw [Nat.pow_add]; ring
+    rw [hcong]
+    unfold floorMag
+    have hk : kOf F (M * 2 ^ K) (2 ^ d) = K := by
+      unfold kOf
+      have hlog : (M * 2 ^ K / 2 ^ d).log2 = F.mbits + K := by
+        apply log2_eq_of
+        · rw [Nat.le_div_iff_mul_le (pow_pos' d)]
+          calc 2 ^ (F.mbits + K) * 2 ^ d = 2 ^ F.mbits * 2 ^ d * 2 ^ K := by rw [Nat.pow_add]; ring
+            _ = 2 ^ 63 * 2 ^ K := by rw [h63]
+            _ ≤ M * 2 ^ K := Nat.mul_le_mul_right _ hM1
+        · rw [Nat.div_lt_iff_lt_mul (pow_pos' d)]
+          calc M * 2 ^ K < 2 ^ 64 * 2 ^ K := Nat.mul_lt_mul_of_pos_right hM2 (pow_pos' K)
+            _ = 2 ^ (F.mbits + K + 1) * 2 ^ d := by rw [h64, Nat.pow_add, Nat.pow_add, Nat.pow_add]; ring
+      rw [hlog]; omega
+    rw [hk]
+    congr 1
+    unfold gDown
+    apply div_congr _ _ _ _ (Nat.mul_pos (pow_pos' d) (pow_pos' K)) (pow_pos' d)
+    ring
+  · rw [if_neg hN]
+    have hnum : sNum F M E = M := by
+      unfold sNum
+      have : (E + (F.qexp : Int)).toNat = 0 := by omega
+      rw [this]; simp
+    obtain ⟨s, hs⟩ : ∃ s : Nat, -(F.qexp : Int) - E = s := ⟨(-(F.qexp : Int) - E).toNat, by omega⟩
+    have hst : (-(F.qexp : Int) - E).toNat = s := by omega
+    have hden : sDen F E = 2 ^ s := by
+      unfold sDen; congr 1; omega
+    rw [hnum, hden, hst]
+    unfold floorMag
+    have hsd : d + 1 ≤ s := by omega
+    have hq : M / 2 ^ s < 2 ^ F.mbits := by
+      rw [Nat.div_lt_iff_lt_mul (pow_pos' s)]
+      have : 2 ^ (d + 1) ≤ 2 ^ s := Nat.pow_le_pow_right (by decide) hsd
+      have e2 : 2 ^ F.mbits * 2 ^ (d + 1) = 2 ^ 64 := by rw [← Nat.pow_add]; congr 1; omega
+      calc M < 2 ^ 64 := hM2
+        _ = 2 ^ F.mbits * 2 ^ (d + 1) := e2.symm
+        _ ≤ 2 ^ F.mbits * 2 ^ s := Nat.mul_le_mul_left _ this
+    have hk : kOf F M (2 ^ s) = 0 := by
+      unfold kOf
+      rcases log2_lt_of hq with h | h
+      · omega
+      · rw [h]; simp [Nat.log2]
+    rw [hk]
+    simp only [Nat.zero_mul, Nat.zero_add, Nat.pow_zero, Nat.mul_one]
+    by_cases h64' : -(F.qexp : Int) - E ≤ 64
+    · rw [if_pos h64']; rfl
+    · rw [if_neg h64']
+      have hs65 : 65 ≤ s := by omega
+      have hbig : 2 ^ 65 ≤ 2 ^ s := Nat.pow_le_pow_right (by decide) hs65
+      exact Nat.div_eq_of_lt (by omega)
+
+/-- **`into_downward_float` rounds the extended value toward zero** -/
+theorem intoDownwardFloat_eq_floorMag {c : FC} {F : Fmt} (h : FCok c F) (fp : ExtFloat) (h0 : 0 < fp.mant)
+    (h64 : fp.mant < 2 ^ 64) :
+    intoDownwardFloat c fp = clampInf F (floorMag F (sNum F fp.mant fp.exp) (sDen F fp.exp)) := by
+  obtain ⟨s, _, hn, hM1, hM2⟩ := normalize_spec fp h0 h64
+  unfold intoDownwardFloat roundToNative
+  rw [hn]
+  simp only []
+  rw [pack h roundDownward_algOk _ _ hM1 hM2,
+    ← floorMag_normalized (by have := h.mb62; have := h.eb; omega) _ _ hM1 hM2]
+  congr 1
+  exact floorMag_congr F _ _ _ _ (sDen_pos F _) (sDen_pos F _) (scaled_shift F fp.mant fp.exp s).symm
+
 end SJ.Proofs.LexRound
